@@ -85,6 +85,8 @@ pub enum G {
     ExtWrap(Box<G>),
     /// `(Skip n)`: `custom(|inp| { n times inp.skip(); Ok(()) })`
     Skip(usize),
+    /// `(NestedDelims s e ((s1 e1) ..))`: `recovery::nested_delimiters`
+    NestedDelims(u32, u32, Vec<(u32, u32)>),
 }
 
 #[derive(Clone, Copy, Debug, PartialEq)]
@@ -694,6 +696,20 @@ pub fn parse_g(tk: Tk, s: &Sexp) -> R<G> {
         ("NestedIn", [a]) => G::NestedIn(bg(a)?),
         ("ExtWrap", [a]) => G::ExtWrap(bg(a)?),
         ("Skip", [n]) => G::Skip(nat(n)?),
+        ("NestedDelims", [s, e, others]) => {
+            let others = others
+                .list()?
+                .iter()
+                .map(|p| {
+                    let l = p.list()?;
+                    match l {
+                        [a, b] => Some((tok(tk, a)?, tok(tk, b)?)),
+                        _ => None,
+                    }
+                })
+                .collect::<R<Vec<_>>>()?;
+            G::NestedDelims(tok(tk, s)?, tok(tk, e)?, others)
+        }
         _ => return None,
     })
 }
@@ -727,7 +743,7 @@ impl G {
     pub fn has_fnew(&self) -> bool {
         let new = |f: &Fn1| *f == Fn1::New;
         match self {
-            G::End | G::Empty | G::Any | G::Just(_) | G::OneOf(_) | G::NoneOf(_) | G::Custom(..) | G::Skip(_) => false,
+            G::End | G::Empty | G::Any | G::Just(_) | G::OneOf(_) | G::NoneOf(_) | G::Custom(..) | G::Skip(_) | G::NestedDelims(..) => false,
             G::JustCfg(_) | G::Var(_) => false,
             G::Select(_, f) => new(f),
             G::Map(f, a) | G::TryMap(_, f, _, a) | G::TryMapWith(_, f, _, a) | G::MapCtx(f, a) => {
